@@ -945,14 +945,16 @@ class Exec:
             exp = self.ctx.get('battery')
             if exp:
                 got = battery_digests(self.ctx)
-                for (nm, d0), (_, d1) in zip(exp, got):
+                for k, ((nm, d0), (_, d1)) in enumerate(zip(exp, got)):
                     if d0 != d1:
+                        mine = battery_digests(self.ctx, only=k)
                         self.violation(
                             'I4-canary', len(self.plan['ops']),
                             {'desc': nm, 'op': 'battery', 'fault': None},
                             f'canary {nm!r} gives another outcome after this '
                             f'history than in a pristine process '
                             f'({d0} -> {d1})')
+                        self._viol_or_known_last()['canary'] = [k, mine]
                         break
             g1 = global_state()
             if g1 != g0:
@@ -990,6 +992,10 @@ class Exec:
                     f'its value at creation: {diff(s["canon0"], c)}',
                     cls=_n(s['obj']))
                 s['canon0'] = c          # report each change once
+
+    def _viol_or_known_last(self):
+        return (self._viol or self._known)[-1] if (self._viol or self._known) \
+            else {}
 
     def violation(self, oracle, j, rec, detail, cls=''):
         sig = {'property': PROPERTY, 'oracle': oracle, 'op': rec.get('op', ''),
@@ -1236,8 +1242,9 @@ def _battery_ops(ex):
     return locals()
 
 
-def battery_digests(ctx):
-    """Evaluate the canary battery in the current process."""
+def battery_digests(ctx, only=None):
+    """Evaluate the canary battery in the current process (``only``: return
+    the canonical outcome of that single entry instead of digests)."""
     plan = ctx.get('battery_plan') or battery_plan()
     ex = Exec(plan, ctx)
     ex.setup_disk()
@@ -1245,6 +1252,8 @@ def battery_digests(ctx):
     out = []
     try:
         for i, op in enumerate(plan['ops']):
+            if only is not None and i != only:
+                continue
             a = Arg(ex, op, forced=op['forced'])
             ex.derivations = {}
             wrec = []
@@ -1255,6 +1264,8 @@ def battery_digests(ctx):
                 o = ['ok', canon(res)]
             except Exception as exc:
                 o = ['raise', type(exc).__name__, clean(exc)]
+            if only is not None:
+                return [o, wrec]
             out.append([f'{i}:{op["op"]}:{op.get("fmt", op.get("what", ""))}',
                         fpc([o, wrec])])
     finally:
@@ -1464,6 +1475,18 @@ def worker_post(plan, res, ctx, fork_call, tier_cfg):
                 res['known_hits'].append({'id': k, **v})
             else:
                 res['violations'].append(v)
+    # I4 reports: add what differs, computed against a pristine fork
+    for v in res['violations'] + res['known_hits']:
+        if v.get('oracle') == 'I4-canary' and 'canary' in v:
+            k, mine = v.pop('canary')
+            rctx = {kk: vv for kk, vv in ctx.items() if kk != 'battery'}
+            ref = fork_call(lambda c: battery_digests(c, only=k), rctx, 120)
+            what = ctx['battery_plan']['ops'][k]
+            pool = ctx['battery_plan']['pool']
+            src = [pool[i]['recipe'] for i in what.get('forced', [])][:1]
+            v['detail'] = (v['detail'] + f'; input {str(src)[:200]}; '
+                           f'difference (after history vs pristine): '
+                           f'{diff(mine, ref)}')[:900]
     res['digest'] = fpc([res['digest'], res['violations'], res['known_hits']])
     return res
 
